@@ -304,6 +304,11 @@ def main(prop, modname, tier, nproc=None):
                 if w.get("kind") is None:
                     continue
                 out = srv.call(modname, w["kind"], w["case"], "witness", w.get("expect"))
+                if out.get("violates") or out.get("error"):
+                    # a broken tree may have polluted process-global state of the real package (shared default lists, caches):
+                    # continue with a pristine interpreter
+                    srv.close()
+                    srv = ReplayServer()
                 if out.get("violates"):
                     # the real package breaks the property's concrete oracle on a solver-chosen path representative
                     v = {"obligation": (out.get("reason") or "witness").split(":")[0], "case": w["case"], "kind": w["kind"], "detail": None,
@@ -323,6 +328,8 @@ def main(prop, modname, tier, nproc=None):
                 if v.get("kind") is None:
                     spurious.append({"violation": v, "why": "no replay kind"})
                     continue
+                srv.close()
+                srv = ReplayServer()      # every counterexample is confirmed in a fresh interpreter
                 out = srv.call(modname, v["kind"], v["case"], "violation", {"obligation": v["obligation"], "detail": v.get("detail"), "extra": v.get("extra")})
                 if out.get("error"):
                     spurious.append({"violation": v, "why": "replay error: " + out["error"]})
